@@ -67,7 +67,7 @@ def run(ctx):
         if it % 3 != 2 or not ok:
             continue
         # equivariance twins under the same numpy seed
-        for alpha, beta in ((1e-3, 0.0), (7.0, 1.5 * d), (1000.0, -3.0 * d), (rnd.uniform(0.01, 100), rnd.uniform(-5, 5) * d)):
+        for alpha, beta in ((1e-3, 0.0), (7.0, 1.5 * d), (1000.0, -3.0 * d), (rnd.uniform(0.01, 100), rnd.uniform(-5, 5) * d), (1.0, 1e6 * d), (0.5, -1e4 * d)):
             e2 = estimate(alpha * y + beta, it)
             if not finite(e2):
                 events.append({"kind": "equiv", "finite": False})
@@ -78,6 +78,21 @@ def run(ctx):
                                "dtl": ppm(e2.t_left - e.t_left), "dtr": ppm(e2.t_right - e.t_right), "dto": ppm(e2.t_opt - e.t_opt), "same_i": bool(e2.i == e.i)})
             meta.append(("equiv", (a, b), alpha, beta / d))
             ctx.case(("equiv", sps, int(math.floor(math.log10(alpha))), beta != 0))
+    # one record longer than the default eye window (4096 slots): the estimate must still be that of a clean eye
+    for it in range(2 if T else 1):
+        a, b, sigma, sps = [(0.0, 1.0), (-2.0, 3.0)][it], 0.0, 0.01, 8
+        a, b = [(0.0, 1.0), (-2.0, 3.0)][it]
+        base, nz = synth(sps, "random", 4600 + 100 * it, 900 + it, sigma)
+        d = b - a
+        e = estimate(a + d * base + d * nz, 50 + it)
+        if finite(e):
+            events.append({"kind": "est", "finite": True, "mu0e": ppm((e.mu0 - a) / d), "mu1e": ppm((e.mu1 - b) / d), "s0": ppm(e.s0 / d), "s1": ppm(e.s1 / d),
+                           "sigma": ppm(sigma), "thr_in": bool(e.mu0 < e.threshold < e.mu1), "tdist_ppm": ppm(e.t_right - e.t_left),
+                           "topt_mid_ppm": ppm(e.t_opt - (e.t_left + e.t_right) / 2), "i": int(e.i), "i_int": bool(isinstance(e.i, (int, np.integer))), "sps": sps})
+        else:
+            events.append({"kind": "est", "finite": False})
+        meta.append(("est", (a, b), sps, "long-record"))
+        ctx.case(("est-long", it))
     gv.clean()
     ctx.assumptions.append("KMeans/KDE are not modelled: the statement's bands and the equivariance are monitored on recorded runs under fixed numpy seeds")
     for idx, clause in ctx.validate("EyeTrace", events, note="eye estimates"):
